@@ -129,7 +129,7 @@ Proof.
       destruct (nget a (lists s)) eqn:E; unfold lget in Ho; rewrite E in Ho; rewrite ?occ_nil in *; lia.
     + thread_sums x Hx. fin Hc Hp. lia.
   - (* move: push to the destination *)
-    destruct (lock_is_free b s); [|discriminate]. inversion Hs; subst s'; clear Hs.
+    destruct (lock_avail b t s); [|discriminate]. inversion Hs; subst s'; clear Hs.
     thread_sums x Hx. fin Hc Hp.
     rewrite (occ_cons v v1).
     destruct (nget b (lists s)) eqn:E; unfold lget; rewrite E; rewrite ?occ_nil; lia.
